@@ -71,3 +71,55 @@ def order_valuation(order):
             return order[t]
         return None
     return val
+
+
+def run_block(stmts, valuation, visit):
+    """Symbolically run a statement list under a *complete* valuation of its tests: every `if` must evaluate to True/False
+    (else Undecided).  `visit(stmt)` is called for every simple statement executed.  Loops are not entered (visit gets the
+    loop statement).  Returns one of 'fall', 'break', 'continue', 'return', 'raise'."""
+    for st in stmts:
+        if isinstance(st, ast.If):
+            v = eval_guard(st.test, valuation)
+            if v is None:
+                raise Undecided('test %s not decided by the enumerated domain' % norm(st.test))
+            out = run_block(st.body if v else st.orelse, valuation, visit)
+            if out != 'fall':
+                return out
+        elif isinstance(st, ast.Break):
+            return 'break'
+        elif isinstance(st, ast.Continue):
+            return 'continue'
+        elif isinstance(st, ast.Return):
+            visit(st)
+            return 'return'
+        elif isinstance(st, ast.Raise):
+            visit(st)
+            return 'raise'
+        else:
+            visit(st)
+    return 'fall'
+
+
+def flag_valuation(flags, extra=None):
+    """flags: {name: bool}.  Atoms: a flag name (truthiness), `x is None` / `x is not None` for names mapped to None/'notnone'
+    in `extra`, comparisons decided by `extra` ({text: bool})."""
+    extra = extra or {}
+
+    def val(atom):
+        t = norm(atom)
+        if t in extra:
+            return extra[t]
+        if isinstance(atom, ast.Name) and atom.id in flags:
+            return flags[atom.id]
+        return None
+    return val
+
+
+def merge_valuations(*vals):
+    def val(atom):
+        for v in vals:
+            r = v(atom)
+            if r is not None:
+                return r
+        return None
+    return val
